@@ -76,9 +76,39 @@ fn enc<T: WritePacket + ReadPacket + PartialEq + Send + Sync + Debug + Clone>(p:
     Ok((T::ID, body, framed))
 }
 
-fn dec<T: ReadPacket + Send + Sync>(bytes: &[u8]) -> Result<(T, usize), String> {
+/// an in-memory reader that hands out at most `chunk` bytes per read (how a socket delivers data)
+struct Chunked {
+    data: Vec<u8>,
+    pos: usize,
+    chunk: usize,
+}
+
+impl tokio::io::AsyncRead for Chunked {
+    fn poll_read(mut self: std::pin::Pin<&mut Self>, _cx: &mut Context<'_>, buf: &mut tokio::io::ReadBuf<'_>) -> Poll<std::io::Result<()>> {
+        let n = self.chunk.min(self.data.len() - self.pos).min(buf.remaining());
+        let from = self.pos;
+        buf.put_slice(&self.data[from..from + n]);
+        self.pos += n;
+        Poll::Ready(Ok(()))
+    }
+}
+
+fn dec<T: ReadPacket + Send + Sync + PartialEq + Debug>(bytes: &[u8]) -> Result<(T, usize), String> {
     let mut cur = Cursor::new(bytes.to_vec());
     let v = block_on(T::read_from_buffer(&mut cur)).map_err(|e| format!("decode error: {e}"))?;
+    // decoding must not depend on how the bytes are chunked by the reader
+    for chunk in [1usize, 3, 16] {
+        if bytes.len() > chunk {
+            let mut r = Chunked { data: bytes.to_vec(), pos: 0, chunk };
+            match block_on(T::read_from_buffer(&mut r)) {
+                // compound text components are re-spelled on decode (key order is not part of the value): for those
+                // only success and the consumed length are compared here
+                Ok(w) if (w == v || !FRAMED_CHECK.with(|f| f.get())) && r.pos == cur.position() as usize => {}
+                Ok(w) => return Err(format!("CHUNKED: decoding {} bytes at a time yields {w:?} (consumed {}), decoding at once yields {v:?} (consumed {})", chunk, r.pos, cur.position())),
+                Err(e) => return Err(format!("CHUNKED: decoding {chunk} bytes at a time fails: {e}")),
+            }
+        }
+    }
     Ok((v, cur.position() as usize))
 }
 
@@ -468,7 +498,7 @@ fn check_packet(p: &Pkt) -> Result<(), (String, String)> {
         }
     }
     // (c) crate decodes its own bytes back, consuming everything
-    let (back, used) = crate_decode(p, &cbody).map_err(|e| (format!("roundtrip:{kind}"), format!("{kind}: crate cannot decode its own encoding: {e}")))?;
+    let (back, used) = crate_decode(p, &cbody).map_err(|e| (if e.starts_with("CHUNKED") { format!("decode-depends-on-chunking:{kind}") } else { format!("roundtrip:{kind}") }, format!("{kind}: crate cannot decode its own encoding: {e}")))?;
     if !pkt_eq(&back, p) {
         return Err((format!("roundtrip:{kind}"), format!("{kind}: decode(encode(v)) = {back:?}, v = {p:?}")));
     }
